@@ -201,6 +201,7 @@ def correspond(ctx, corr):
     suite_daliserver(ctx, corr, ids, picks, allcmds)
     suite_atx(ctx, corr, ids, picks, allcmds)
     route_tridonic(ctx, corr, ids, picks)
+    if not __import__("os").environ.get("NO_TWO"): route_two_tridonic(ctx, corr, ids, picks)
     route_hasseb(ctx, corr, ids, picks)
     route_serial(ctx, corr, ids, picks)
     route_serial_delivery(ctx, corr, ids, picks, found)
@@ -834,6 +835,77 @@ def route_tridonic(ctx, corr, ids, picks):
     corr.count("tridonic_routing", traces)
 
 
+def route_two_tridonic(ctx, corr, ids, picks):
+    """Two Tridonic interfaces in one process (two DALI lines), each with a command in flight at the same moment
+    and - the start values being random - possibly with the SAME sequence number: each driver is an instance of the
+    one-driver model, nothing is shared between them; each caller receives the answer its own gateway gave to its
+    own command.  (Strengthening after seeded round 6: per-driver tables must be per driver.)"""
+    cmdpool = [picks[k] for k in KINDS]
+    n = 0
+
+    async def scenario(loop, ca, busa, cb, busb, seqa, seqb, order):
+        hub = sim.OSHub()
+        t1 = await sim.TriSim(seq0=seqa, hub=hub).start()
+        t2 = await sim.TriSim(seq0=seqb, hub=hub).start()
+        ta = asyncio.ensure_future(t1.d.send(ca))
+        tb = asyncio.ensure_future(t2.d.send(cb))
+        await sim.settle(5)
+        history = []
+        lanes = []
+        for name, ts, c, bus in (("A", t1, ca, busa), ("B", t2, cb, busb)):
+            if not ts.fos.written:
+                lanes.append([])
+                history.append("driver %s wrote nothing" % name)
+                continue
+            seq = ts.fos.written[-1][1]
+            enc = ask(["enc tridonic %d %d %s 0" % (c.sendtwice, len(c.frame) == 24, bus)])[0].split()[1:]
+            reps = [tuple(int(x) for x in m.split(".")) for m in enc]
+            history.append("driver %s writes %s with sequence number %d" % (name, c.frame, seq))
+            lanes.append([(name, ts, seq, m) for m in reps])
+        k = 0
+        while any(lanes):
+            live = [l for l in lanes if l]
+            lane = live[order[k % len(order)] % len(live)]
+            k += 1
+            name, ts, seq, m = lane.pop(0)
+            ts.deliver(sim.tri_packet(0x12, m[0], m[1:5], seq))
+            history.append("gateway %s reports %s for sequence number %d" % (name, tri_tok(m), seq))
+            await sim.settle(5)
+        await sim.settle(6)
+        res = []
+        for t in (ta, tb):
+            if t.done():
+                try:
+                    res.append("ok " + canon_answer(t.result(), ids))
+                except BaseException as e:  # noqa
+                    res.append("err " + type(e).__name__)
+            else:
+                res.append("blocked")
+        left = (dict(t1.d._outstanding), dict(t2.d._outstanding))
+        return res, history, left
+    rng = ctx.rng
+    for _ in range(250 if ctx.thorough else 60):
+        ca, cb = rng.choice(cmdpool), rng.choice(cmdpool)
+        busa, busb = bus_of(rng, ca.response), bus_of(rng, cb.response)
+        same = rng.random() < 0.6
+        seqa = rng.choice([1, 7, 100, 254, 255])
+        seqb = seqa if same else rng.choice([1, 7, 100, 254, 255])
+        order = [rng.randrange(2) for _ in range(10)]
+        try:
+            res, history, left = sim.run(scenario, ca, busa, cb, busb, seqa, seqb, order)
+        except Exception as e:  # noqa
+            res, history, left = ["err " + type(e).__name__] * 2, ["the scenario itself raised %r" % (e,)], ({}, {})
+        for i, (c, bus) in enumerate(((ca, busa), (cb, busb))):
+            check_table(corr, "tridonic", c, bus, res[i], ids,
+                        history={"routing": history, "driver": "AB"[i], "command": str(c), "bus": bus,
+                                 "two drivers in one process": True})
+        if left[0] or left[1]:
+            corr.violate("routing:tridonic:two-drivers", {"routing": history}, "both tables empty at the end",
+                         "entries left: %s / %s" % (list(left[0]), list(left[1])))
+        n += 1
+    corr.count("tridonic_two_drivers", n)
+
+
 def route_hasseb(ctx, corr, ids, picks):
     traces = 0
     pool = [picks[k] for k in KINDS if k[0] == 16]
@@ -1385,6 +1457,16 @@ def route_serial_delivery(ctx, corr, ids, picks, found):
                     c = rng.choice(pool)
                     callers.append((c, bus_of(rng, c.response)))
                 run_one(kind, callers, pattern, rng.choice([None, rng.randrange(256)]), rng.random() < 0.7)
+            # K6 (found by this suite, then fixed): whatever report the previous exchange leaves behind - the error
+            # information frame after a garbled answer, the answer nobody took of a command sent as a non-query -
+            # must not be taken for the confirmation of the NEXT command's EnableDeviceType prefix: every command
+            # kind with every outcome, directly followed by a device-type query that is answered
+            dtq = [c for c in pool if c.devicetype and c.response is not None]
+            for first in pool:
+                for bus in (["s", "g", "v9"] if first.response is not None else ["s"]):
+                    for queued in (False, True):
+                        second = dtq[(len(bus) + pool.index(first)) % len(dtq)]
+                        run_one(kind, [(first, bus), (second, "v%d" % (77 + pool.index(first)))], pattern, None, queued)
     corr.count("traces", traces)
     corr.count("serial_delivery", traces)
 
